@@ -3,6 +3,7 @@
 package p2p
 
 import (
+	"encoding/binary"
 	"net"
 	"time"
 
@@ -222,4 +223,25 @@ func VerifReflectingHandshake(conn net.Conn, ephemeralPub, ephemeralPriv []byte)
 		return ec, ErrFailedMetaSwap(err)
 	}
 	return
+}
+
+// VerifFrameCounters returns how many frames this end has sent and received (the counters inside the two nonces).
+func (c *EncryptedConn) VerifFrameCounters() (sent, received uint64) {
+	c.send.Lock()
+	sent = binary.LittleEndian.Uint64(c.send.nonce[4:])
+	c.send.Unlock()
+	c.receive.Lock()
+	received = binary.LittleEndian.Uint64(c.receive.nonce[4:])
+	c.receive.Unlock()
+	return
+}
+
+// VerifSetFrameCounters ages a connection: it sets the number of frames this end has sent and received.
+func (c *EncryptedConn) VerifSetFrameCounters(sent, received uint64) {
+	c.send.Lock()
+	binary.LittleEndian.PutUint64(c.send.nonce[4:], sent)
+	c.send.Unlock()
+	c.receive.Lock()
+	binary.LittleEndian.PutUint64(c.receive.nonce[4:], received)
+	c.receive.Unlock()
 }
